@@ -34,9 +34,12 @@ def build(cx, ftype, minimizer, cost="chi2_fast", model=None, sources=(), constr
         pb.fit.fix_parameter(nm, v)
         pb.fixed[nm] = v
     pb.limits = {}
-    for nm in limits:
-        lo, hi = cx.real("lo_" + nm), cx.real("hi_" + nm)
-        cx.assume(lo < hi)
+    for spec in limits:
+        nm, side = spec if isinstance(spec, tuple) else (spec, "both")
+        lo = cx.real("lo_" + nm) if side in ("both", "lower") else None
+        hi = cx.real("hi_" + nm) if side in ("both", "upper") else None
+        if side == "both":
+            cx.assume(lo < hi)
         pb.fit.limit_parameter(nm, lo, hi)
         pb.limits[nm] = (lo, hi)
     return pb
